@@ -4,20 +4,22 @@
    Model: Model/Diag.v (diagnostics_manager.go), Model/Events.v (handlers, HandleFileEventChanges, file index, error
    collection); the per-file analyses are the fields of `analysis` (any instance satisfying `analysis_ok`).
    Spec: Spec/FreshStart.v (`fresh_view`, `demanded`, `conformant`, the finding classes, `guard`).
-   `fixes` switches the proposed repairs on; `no_fix` is the code as it is. *)
+   `fixes` switches the repairs on: `deployed` (Model/Events.v) = the code as it is now, `no_fix` = the code before the
+   three fix: commits, `all_fix` = with the index repair too. General theorems are quantified over all flag values. *)
 From Coq Require Import List NArith Bool Permutation.
 From LH Require Import Model.Diag Model.Events Spec.FreshStart.
 From LH Require Import Proofs.EventsTracks Proofs.EventsInv Proofs.EventsToy Proofs.EventsToyOk.
 Import ListNotations.
 Local Open Scope N_scope.
 
-(* ---- the full statement of the property on the model of the unchanged code (FALSE today: see the _refuted theorems) ---- *)
+(* ---- the full statement of the property on the model of the code as it is now (`deployed` = the three repairs that
+        are in /repo; FALSE while the remaining finding classes are open: see the _refuted theorems) ---- *)
 Definition C08_full : Prop :=
   forall (A : analysis), analysis_ok A ->
   forall (dk : amap (text A)) (h : list (action A)),
-    conformant_full A no_fix dk h = true ->
-    forall f, constrained A (fst (run A no_fix dk h)) f = true ->
-      Permutation (view (snd (run A no_fix dk h)) f) (demanded A no_fix (fst (run A no_fix dk h)) f).
+    conformant A deployed dk h = true ->
+    forall f, constrained A (fst (run A deployed dk h)) f = true ->
+      Permutation (view (snd (run A deployed dk h)) f) (demanded A deployed (fst (run A deployed dk h)) f).
 
 (* ---- T1, all histories (raw events included), all analyses, all repair flags: the client view is determined by
         the server's two maps ---- *)
@@ -29,16 +31,27 @@ Theorem C08_view_tracks_maps :
 Proof. exact view_tracks_maps. Qed.
 Print Assumptions C08_view_tracks_maps.
 
-(* ---- T1, guarded (partial: one file per watched notification - `conformant`; `guard` excludes exactly the seven
-        finding classes, each only while its repair flag is off) ---- *)
+(* ---- T1, guarded: `guard` = editor discipline (`conformant`) and none of the seven finding classes, each class
+        only while its repair flag is off. Watched-file notifications may name several files. ---- *)
 (* every file, whether or not it has unsaved edits, shows what the property demands (up to order) *)
-Theorem C08_guarded_partial :
+Theorem C08_guarded :
   forall (A : analysis) (fx : fixes), analysis_ok A ->
   forall (dk : amap (text A)) (h : list (action A)),
     guard A fx dk h = true ->
     forall f, Permutation (view (snd (run A fx dk h)) f) (demanded A fx (fst (run A fx dk h)) f).
 Proof. exact guarded_view. Qed.
-Print Assumptions C08_guarded_partial.
+Print Assumptions C08_guarded.
+
+(* the instance for the code as it is now: the guard excludes the four classes that are still open
+   (outside_file, unhidden, watched_dirty, deleted_require); live_cleared, close_revert and empty_shortcut are
+   constantly false under `deployed` *)
+Theorem C08_guarded_deployed :
+  forall (A : analysis), analysis_ok A ->
+  forall (dk : amap (text A)) (h : list (action A)),
+    guard A deployed dk h = true ->
+    forall f, Permutation (view (snd (run A deployed dk h)) f) (demanded A deployed (fst (run A deployed dk h)) f).
+Proof. exact (fun A => guarded_view A deployed). Qed.
+Print Assumptions C08_guarded_deployed.
 
 (* no document has unsaved edits  =>  the client holds what a fresh start on the current files publishes *)
 Theorem C08_incremental_eq_fresh :
@@ -79,12 +92,13 @@ Theorem C08_toy_analysis_ok : analysis_ok toyA.
 Proof. exact toy_ok. Qed.
 Print Assumptions C08_toy_analysis_ok.
 
-(* ---- refutations on the faithful model (toy analysis, no repair): conformant history, constrained file, wrong view;
-        each witness was replayed on the real server through leg c08.history (known_findings/C08.json) ---- *)
-Definition refutes (k : N) (dk : amap (list stmt)) (h : list (action toyA)) (f : file) : Prop :=
-  conformant toyA no_fix dk h = true /\ In k (classes toyA no_fix dk h) /\
-  constrained toyA (fst (run toyA no_fix dk h)) f = true /\
-  ~ Permutation (view (snd (run toyA no_fix dk h)) f) (demanded toyA no_fix (fst (run toyA no_fix dk h)) f).
+(* ---- refutations on the faithful model of the code as it is now (toy analysis, `deployed`): conformant history,
+        constrained file, wrong view; each witness is replayed on the real server through leg c08.history
+        (known_findings/C08.json, status open) ---- *)
+Definition refutes (fx : fixes) (k : N) (dk : amap (list stmt)) (h : list (action toyA)) (f : file) : Prop :=
+  conformant toyA fx dk h = true /\ In k (classes toyA fx dk h) /\
+  constrained toyA (fst (run toyA fx dk h)) f = true /\
+  ~ Permutation (view (snd (run toyA fx dk h)) f) (demanded toyA fx (fst (run toyA fx dk h)) f).
 
 Local Notation AChange := (@AChange toyA).
 Local Notation WC := (@WC toyA).
@@ -93,98 +107,104 @@ Local Notation WM := (@WM toyA).
 Ltac refute :=
   split; [vm_compute; reflexivity|]; split; [vm_compute; tauto|]; split; [vm_compute; reflexivity|];
   let H := fresh in intros H; apply perm_eqb_of_perm in H; vm_compute in H; discriminate H.
+Ltac repaired := apply toy_meets_of_guard; vm_compute; reflexivity.
 
-(* 12a: a has an unsaved syntax error; saving b changes a's saved list; the client loses a's syntax error *)
-Definition w_live_cleared_dk : amap (list stmt) := [(0, [SU 1]); (1, [SC]); (2, [SL])].
-Definition w_live_cleared : list (action toyA) :=
-  [AOpen 0; AChange 0 [SU 1; SS]; AOpen 1; AChange 1 [SD 1]; ASave 1].
-Theorem C08_live_cleared_refuted : refutes 2 w_live_cleared_dk w_live_cleared 0.
-Proof. refute. Qed.
-Print Assumptions C08_live_cleared_refuted.
+(* the deployed code with the index repair (work/fixes/C08-12-index-remove.diff) on top: what `deployed` becomes by
+   the edit `fix_index := true` in Model/Events.v *)
+Definition deployed_index_fixed : fixes :=
+  {| fix12a := fix12a deployed; fix12b := fix12b deployed; fix_index := true; fix_empty := fix_empty deployed |}.
 
-(* 12b: disk a has a syntax error; the buffer is fixed but closed unsaved; the client keeps hiding the error *)
-Definition w_close_revert_dk : amap (list stmt) := [(0, [SS])].
-Definition w_close_revert : list (action toyA) := [AOpen 0; AChange 0 [SC]; AClose 0].
-Theorem C08_close_revert_refuted : refutes 4 w_close_revert_dk w_close_revert 0.
-Proof. refute. Qed.
-Print Assumptions C08_close_revert_refuted.
-
-(* 12: a requires b; b is created and deleted; no type 6 on a, a fresh start has one *)
+(* 12 (repaired by the fix: commit "a deleted file is removed from the file index"): a requires b; b is created and
+   deleted; a gets its type 6 again, as after a fresh start; and the index refines the file set on that witness *)
 Definition w_deleted_require_dk : amap (list stmt) := [(0, [SR 1])].
 Definition w_deleted_require : list (action toyA) := [AWatched [WC 1 [SC]]; AWatched [WD 1]].
-Theorem C08_deleted_require_refuted : refutes 6 w_deleted_require_dk w_deleted_require 0.
-Proof. refute. Qed.
-Print Assumptions C08_deleted_require_refuted.
+Theorem C08_deleted_require_repaired : toy_meets deployed w_deleted_require_dk w_deleted_require.
+Proof. repaired. Qed.
+Print Assumptions C08_deleted_require_repaired.
+Theorem C08_index_refines_repaired :
+  let p := pj (sv (fst (run toyA deployed w_deleted_require_dk w_deleted_require))) in p_index p = p_files p.
+Proof. vm_compute. reflexivity. Qed.
+Print Assumptions C08_index_refines_repaired.
 
-(* the index does not refine the file set (DESIGN C08_index_refines, refuted today) *)
-Theorem C08_index_refines_refuted :
-  let p := pj (sv (fst (run toyA no_fix w_deleted_require_dk w_deleted_require))) in p_index p <> p_files p.
-Proof. vm_compute. discriminate. Qed.
-Print Assumptions C08_index_refines_refuted.
-
-(* new: a's saved version has a syntax error, its unsaved buffer is clean; saving b changes a's saved list; the
-   stale syntax error is shown again although the buffer does not have it *)
+(* ---- still open ---- *)
+(* a's saved version has a syntax error, its unsaved buffer is clean; saving b changes a's saved list; the stale
+   syntax error is shown again although the buffer does not have it *)
 Definition w_unhidden_dk : amap (list stmt) := [(0, [SS; SU 1]); (1, [SC])].
 Definition w_unhidden : list (action toyA) := [AOpen 0; AChange 0 [SU 1]; AOpen 1; AChange 1 [SD 1]; ASave 1].
-Theorem C08_unhidden_refuted : refutes 3 w_unhidden_dk w_unhidden 0.
+Theorem C08_unhidden_refuted : refutes deployed 3 w_unhidden_dk w_unhidden 0.
 Proof. refute. Qed.
 Print Assumptions C08_unhidden_refuted.
 
-(* new: a file analysed at start-up is emptied and saved: bytes.Equal(nil, empty) - the old diagnostics stay *)
-Definition w_empty_shortcut_dk : amap (list stmt) := [(0, [SS])].
-Definition w_empty_shortcut : list (action toyA) := [AOpen 0; AChange 0 []; ASave 0].
-Theorem C08_empty_shortcut_refuted : refutes 7 w_empty_shortcut_dk w_empty_shortcut 0.
-Proof. refute. Qed.
-Print Assumptions C08_empty_shortcut_refuted.
-
-(* new: an external change of a file whose unsaved buffer has a syntax error drops the live entry *)
+(* an external change of a file whose unsaved buffer has a syntax error drops the live entry *)
 Definition w_watched_dirty_dk : amap (list stmt) := [(0, [SL])].
 Definition w_watched_dirty : list (action toyA) := [AOpen 0; AChange 0 [SL; SS]; AWatched [WM 0 [SL; SL]]].
-Theorem C08_watched_dirty_refuted : refutes 5 w_watched_dirty_dk w_watched_dirty 0.
+Theorem C08_watched_dirty_refuted : refutes deployed 5 w_watched_dirty_dk w_watched_dirty 0.
 Proof. refute. Qed.
 Print Assumptions C08_watched_dirty_refuted.
 
-(* new: a file outside the workspace (p) is opened and closed again: its global keeps suppressing a's warning *)
+(* a file outside the workspace (p) is opened and closed again: its global keeps suppressing a's warning *)
 Definition w_outside_dk : amap (list stmt) := [(0, [SU 1]); (4, [SD 1])].
 Definition w_outside : list (action toyA) := [AOpen 4; AOpen 0; AChange 0 [SC; SU 1]; ASave 0; AClose 4].
-Theorem C08_outside_file_refuted : refutes 1 w_outside_dk w_outside 0.
+Theorem C08_outside_file_refuted : refutes deployed 1 w_outside_dk w_outside 0.
 Proof. refute. Qed.
 Print Assumptions C08_outside_file_refuted.
 
 Theorem C08_full_refuted : ~ C08_full.
 Proof.
-  intros H. destruct C08_live_cleared_refuted as [Hc [_ [Hk Hn]]]. apply Hn.
-  apply (H toyA toy_ok w_live_cleared_dk w_live_cleared); [vm_compute; reflexivity|exact Hk].
+  intros H. destruct C08_unhidden_refuted as [Hc [_ [Hk Hn]]]. apply Hn.
+  apply (H toyA toy_ok w_unhidden_dk w_unhidden); [vm_compute; reflexivity|exact Hk].
 Qed.
 Print Assumptions C08_full_refuted.
 
-(* ---- with the repair switched on, each repaired witness meets the property (the model with the flag = the patched
-        code, work/fixes/C08-*.diff) ---- *)
-Definition meets (fx : fixes) (dk : amap (list stmt)) (h : list (action toyA)) (f : file) : bool :=
-  perm_eqb (view (snd (run toyA fx dk h)) f) (demanded toyA fx (fst (run toyA fx dk h)) f) && guard toyA fx dk h.
+(* ---- repaired (fix: commits 0734f52, af1552a, 85b8991): the former witnesses are inside the guard of the deployed
+        model and meet the property at every file; on the model of the old code (no_fix) they refute it ---- *)
+(* 12a: a has an unsaved syntax error; saving b changes a's saved list; a's syntax error stays visible *)
+Definition w_live_cleared_dk : amap (list stmt) := [(0, [SU 1]); (1, [SC]); (2, [SL])].
+Definition w_live_cleared : list (action toyA) :=
+  [AOpen 0; AChange 0 [SU 1; SS]; AOpen 1; AChange 1 [SD 1]; ASave 1].
+Theorem C08_live_cleared_repaired : toy_meets deployed w_live_cleared_dk w_live_cleared.
+Proof. repaired. Qed.
+Print Assumptions C08_live_cleared_repaired.
+Example C08_live_cleared_before_fix : refutes no_fix 2 w_live_cleared_dk w_live_cleared 0.
+Proof. refute. Qed.
 
-Example C08_live_cleared_fixed :
-  meets {| fix12a := true; fix12b := false; fix_index := false; fix_empty := false |} w_live_cleared_dk w_live_cleared 0 = true.
-Proof. vm_compute. reflexivity. Qed.
-Example C08_close_revert_fixed :
-  meets {| fix12a := false; fix12b := true; fix_index := false; fix_empty := false |} w_close_revert_dk w_close_revert 0 = true.
-Proof. vm_compute. reflexivity. Qed.
-Example C08_deleted_require_fixed :
-  meets {| fix12a := false; fix12b := false; fix_index := true; fix_empty := false |} w_deleted_require_dk w_deleted_require 0 = true.
-Proof. vm_compute. reflexivity. Qed.
-Example C08_empty_shortcut_fixed :
-  meets {| fix12a := false; fix12b := false; fix_index := false; fix_empty := true |} w_empty_shortcut_dk w_empty_shortcut 0 = true.
-Proof. vm_compute. reflexivity. Qed.
+(* 12b: disk a has a syntax error; the buffer is fixed but closed unsaved; the syntax error is shown again *)
+Definition w_close_revert_dk : amap (list stmt) := [(0, [SS])].
+Definition w_close_revert : list (action toyA) := [AOpen 0; AChange 0 [SC]; AClose 0].
+Theorem C08_close_revert_repaired : toy_meets deployed w_close_revert_dk w_close_revert.
+Proof. repaired. Qed.
+Print Assumptions C08_close_revert_repaired.
+Example C08_close_revert_before_fix : refutes no_fix 4 w_close_revert_dk w_close_revert 0.
+Proof. refute. Qed.
 
-(* ---- non-vacuity: a non-trivial history satisfies the guard of the unrepaired model (fix-then-break cycles with
-        saves, an unsaved syntax error visible while another file is saved without changing that file's saved list,
-        creation and deletion of files, a require that resolves) ---- *)
+(* a file analysed at start-up is emptied and saved: it is analysed again *)
+Definition w_empty_shortcut_dk : amap (list stmt) := [(0, [SS])].
+Definition w_empty_shortcut : list (action toyA) := [AOpen 0; AChange 0 []; ASave 0].
+Theorem C08_empty_shortcut_repaired : toy_meets deployed w_empty_shortcut_dk w_empty_shortcut.
+Proof. repaired. Qed.
+Print Assumptions C08_empty_shortcut_repaired.
+Example C08_empty_shortcut_before_fix : refutes no_fix 7 w_empty_shortcut_dk w_empty_shortcut 0.
+Proof. refute. Qed.
+
+(* under `deployed` the three repaired classes never occur: their predicates are constantly false *)
+Theorem C08_repaired_classes_gone :
+  forall (A : analysis) (w w' : world A) (a : action A),
+    k_live_cleared A deployed w w' = false /\ k_close_revert A deployed w a = false /\
+    k_empty_shortcut A deployed w a = false.
+Proof. exact repaired_classes_gone. Qed.
+Print Assumptions C08_repaired_classes_gone.
+
+(* ---- non-vacuity: a non-trivial history satisfies the guard of the deployed model: fix-then-break cycles with saves,
+        an unsaved syntax error that stays visible while another file's save changes this file's saved list (12a), a
+        buffer closed unsaved over a broken disk file (12b), a file emptied and saved (empty shortcut), creation and
+        deletion of files in notifications naming several files, a require that resolves ---- *)
 Definition g_dk : amap (list stmt) := [(0, [SL; SS]); (1, [SU 1]); (2, [SR 0; SC])].
 Definition g_h : list (action toyA) :=
   [AOpen 0; AChange 0 [SL]; ASave 0; AChange 0 [SL; SS]; AOpen 2; AChange 2 [SR 0; SL]; ASave 2; ASave 0;
-   AChange 0 [SL; SD 1]; ASave 0; AClose 0; AWatched [WC 3 [SU 2; SL]]; AWatched [WM 3 [SD 2]]; AWatched [WD 3];
-   AClose 2].
+   AChange 0 [SC]; AClose 0; AOpen 0; AChange 0 [SU 1; SS]; AOpen 1; AChange 1 [SD 1]; ASave 1; AChange 0 [];
+   ASave 0; AChange 0 [SL; SD 1]; ASave 0; AClose 0; AClose 1;
+   AWatched [WC 3 [SU 2; SL]]; AWatched [WM 3 [SD 2]; WM 1 [SU 2]]; AWatched [WD 3; WM 1 [SU 1]]; AClose 2].
 Example C08_guard_inhabited :
-  guard toyA no_fix g_dk g_h = true /\ dirty (fst (run toyA no_fix g_dk g_h)) = [] /\
-  view (snd (run toyA no_fix g_dk g_h)) 1 = [] /\ view (snd (run toyA no_fix g_dk g_h)) 2 = [(4, 1, 0)].
+  guard toyA deployed g_dk g_h = true /\ dirty (fst (run toyA deployed g_dk g_h)) = [] /\
+  view (snd (run toyA deployed g_dk g_h)) 1 = [] /\ view (snd (run toyA deployed g_dk g_h)) 2 = [(4, 1, 0)].
 Proof. vm_compute. auto. Qed.
